@@ -5,7 +5,7 @@ from .C15 import sn_eq_expected
 SELECT = r'^bluetoe::link_layer::ll_data_pdu_buffer::|^bluetoe::nrf52_details::|^bluetoe::nrf_details::'
 UNITS = lambda u: u in ('w_inst_ll',) or u.startswith('t_link_layer') or u.startswith('nrf_')
 BUF = 'bluetoe::link_layer::ll_data_pdu_buffer::'
-ALSO = [('C15', ('commit-co-update',))]   # clauses of this property that another module's rules decide: run here as well
+ALSO = [('C15', ('commit-co-update', 'connection-state-reset'))]   # clauses of this property that another module's rules decide: run here as well
 META = {
     'level': 'call-site structure: exactly one call site of increment_receive_packet_counter (received(): new PDU and length != 0) and one of '
              'increment_transmit_packet_counter (acknowledge(bool): next to pop_end, PDU acknowledged, not an empty PDU); no other caller in the analysed program. '
